@@ -189,6 +189,80 @@ func init() {
 	})
 }
 
+// c15LockCreateErrorIgnored: in (*Pipestance).Lock, when the exclusive create of the lock file
+// fails with an error OTHER than "exists", the function logs the error and goes on (registers the
+// signal handler, writes the file non-exclusively, returns nil) instead of returning the error.
+// Pattern: the `if f, err := os.OpenFile(...); err == nil { } else if os.IsExist(err) { } else { }`
+// chain; `false` iff its final else block contains a return statement whose result is not the
+// identifier nil; `true` when there is no final else or it does not return an error.
+func init() {
+	addFact(fact{
+		name:   "c15LockCreateErrorIgnored",
+		leanTy: "Bool",
+		deflt:  "true",
+		extract: func(repo string) (string, interface{}, error) {
+			_, f, err := parseFile(repo, "martian/core/pipestance.go")
+			if err != nil {
+				return "", nil, err
+			}
+			fd := findMethod(f, "Pipestance", "Lock")
+			if fd == nil || fd.Body == nil {
+				return "", nil, fmt.Errorf("(*Pipestance).Lock not found")
+			}
+			isOpenFile := func(st ast.Stmt) bool {
+				as, ok := st.(*ast.AssignStmt)
+				if !ok || len(as.Rhs) != 1 {
+					return false
+				}
+				ce, ok := as.Rhs[0].(*ast.CallExpr)
+				if !ok {
+					return false
+				}
+				sel, ok := ce.Fun.(*ast.SelectorExpr)
+				return ok && sel.Sel.Name == "OpenFile"
+			}
+			for _, st := range fd.Body.List {
+				is, ok := st.(*ast.IfStmt)
+				if !ok || is.Init == nil || !isOpenFile(is.Init) {
+					continue
+				}
+				// walk to the end of the else-if chain
+				depth := 0
+				cur := is
+				for {
+					next, ok := cur.Else.(*ast.IfStmt)
+					if !ok {
+						break
+					}
+					cur = next
+					depth++
+				}
+				js := map[string]interface{}{"else_if_branches": depth}
+				blk, ok := cur.Else.(*ast.BlockStmt)
+				if !ok {
+					js["final_else"] = false
+					return "true", js, nil
+				}
+				returnsErr := false
+				for _, x := range blk.List {
+					if rs, ok := x.(*ast.ReturnStmt); ok && len(rs.Results) == 1 {
+						if id, ok := rs.Results[0].(*ast.Ident); !ok || id.Name != "nil" {
+							returnsErr = true
+						}
+					}
+				}
+				js["final_else"] = true
+				js["final_else_returns_error"] = returnsErr
+				if returnsErr {
+					return "false", js, nil
+				}
+				return "true", js, nil
+			}
+			return "", nil, fmt.Errorf("the os.OpenFile if-chain was not found in (*Pipestance).Lock")
+		},
+	})
+}
+
 // c15StructsCompared: (*Ast).EquivalentCall (martian/syntax/equivalence.go) runs,
 // after the call comparison, the second pass `structComparer{...}.call(...)`
 // which compares the DEFINITIONS of the struct types used by the compared
@@ -267,11 +341,14 @@ func init() {
 }
 
 // c15RefusedStartRemovesDir: in (*Runtime).InvokePipeline (martian/core/runtime.go) the error
-// branch right after the call of `instantiatePipeline` — which is where a start that loses the
-// race for the lock returns PipestanceLockedError — removes the pipestance directory.  `true`
-// when `os.RemoveAll` is a statement of that branch itself (unconditional: the directory of the
-// mrp that owns the pipestance is deleted); `false` when it only occurs under a further condition
-// (the repaired code removes it unless the error is PipestanceLockedError) or not at all.
+// branch right after the call of `instantiatePipeline` — where a start arrives that lost the
+// race for the lock (PipestanceLockedError) or failed even earlier (parse / compile / call-graph
+// error) — removes the pipestance directory although this call does not own it.  `false` only
+// when every `os.RemoveAll` / `os.Remove` of that branch sits under a condition `<p> != nil`,
+// `<p>` being the pipestance returned by instantiatePipeline (non-nil exactly when this call took
+// the lock); `true` when one is unconditional, guarded by anything else, or in an else branch
+// (removing even the still-empty folder makes a concurrent starter's lock-file create fail with
+// ENOENT, which Lock() logs and ignores).
 func init() {
 	addFact(fact{
 		name:   "c15RefusedStartRemovesDir",
@@ -296,12 +373,11 @@ func init() {
 					return false
 				}
 				sel, ok := ce.Fun.(*ast.SelectorExpr)
-				return ok && sel.Sel.Name == "RemoveAll"
+				return ok && (sel.Sel.Name == "RemoveAll" || sel.Sel.Name == "Remove")
 			}
-			// the statement after `… := self.instantiatePipeline(…)`
 			for i, st := range fd.Body.List {
 				as, ok := st.(*ast.AssignStmt)
-				if !ok || len(as.Rhs) != 1 {
+				if !ok || len(as.Rhs) != 1 || len(as.Lhs) != 4 {
 					continue
 				}
 				ce, ok := as.Rhs[0].(*ast.CallExpr)
@@ -312,27 +388,45 @@ func init() {
 				if !ok || sel.Sel.Name != "instantiatePipeline" {
 					continue
 				}
-				if i+1 >= len(fd.Body.List) {
+				pid, ok := as.Lhs[2].(*ast.Ident)
+				if !ok || i+1 >= len(fd.Body.List) {
 					break
 				}
 				is, ok := fd.Body.List[i+1].(*ast.IfStmt)
 				if !ok {
 					break
 				}
-				direct, nested := false, false
-				for _, b := range is.Body.List {
-					if isRemoveAll(b) {
-						direct = true
-					}
-					ast.Inspect(b, func(n ast.Node) bool {
-						if s, ok := n.(ast.Stmt); ok && s != b && isRemoveAll(s) {
-							nested = true
+				// guardedByOwner(stmt): stmt is `if <pid> != nil { ... }` (else branches are not the guard)
+				unguarded, guarded := 0, 0
+				var walk func(b *ast.BlockStmt, owned bool)
+				walk = func(b *ast.BlockStmt, owned bool) {
+					for _, x := range b.List {
+						if isRemoveAll(x) {
+							if owned {
+								guarded++
+							} else {
+								unguarded++
+							}
 						}
-						return true
-					})
+						if inner, ok := x.(*ast.IfStmt); ok {
+							own := false
+							if be, ok := inner.Cond.(*ast.BinaryExpr); ok && be.Op.String() == "!=" {
+								if id, ok := be.X.(*ast.Ident); ok && id.Name == pid.Name {
+									if n, ok := be.Y.(*ast.Ident); ok && n.Name == "nil" {
+										own = true
+									}
+								}
+							}
+							walk(inner.Body, owned || own)
+							if eb, ok := inner.Else.(*ast.BlockStmt); ok {
+								walk(eb, owned)
+							}
+						}
+					}
 				}
-				js := map[string]interface{}{"remove_all_unconditional": direct, "remove_all_conditional": nested}
-				if direct {
+				walk(is.Body, false)
+				js := map[string]interface{}{"remove_all_not_under_ownership_guard": unguarded, "remove_all_under_ownership_guard": guarded}
+				if unguarded > 0 {
 					return "true", js, nil
 				}
 				return "false", js, nil
